@@ -632,6 +632,11 @@ impl TypeSpace {
             self.definitions.insert(ref_name.clone(), schema.clone());
         }
 
+        // Distinct definition names (e.g. `foo` and `Foo`) can sanitize to
+        // the same type name. We'd rather fail than emit two items with the
+        // same name. (Only definitions of this batch are compared.)
+        let mut batch_names = BTreeMap::<String, String>::new();
+
         // Convert all types; note that we use the type id assigned from the
         // previous step because each type may create additional types. This
         // effectively is doing the work of `add_type_with_name` but for a
@@ -657,12 +662,31 @@ impl TypeSpace {
 
             match maybe_replace {
                 None => {
+                    let def_label = match &ref_name {
+                        RefKey::Root => "the root schema".to_string(),
+                        RefKey::Def(name) => format!("definition `{}`", name),
+                    };
                     let type_name = if let RefKey::Def(name) = ref_name {
                         Name::Required(name.clone())
                     } else {
                         Name::Unknown
                     };
-                    self.convert_ref_type(type_name, schema, type_id)?
+                    self.convert_ref_type(type_name, schema, type_id.clone())?;
+
+                    let entry_name = self.id_to_entry.get(&type_id).and_then(TypeEntry::name);
+                    if let Some(entry_name) = entry_name.cloned() {
+                        if let Some(prev_label) =
+                            batch_names.insert(entry_name.clone(), def_label.clone())
+                        {
+                            return Err(Error::InvalidSchema {
+                                type_name: Some(entry_name),
+                                reason: format!(
+                                    "{} and {} map to the same type name",
+                                    prev_label, def_label,
+                                ),
+                            });
+                        }
+                    }
                 }
 
                 Some(replace_type) => {
